@@ -154,3 +154,24 @@ rule('decimal-glue', 'eval_*', '*', ['post', 'precond', 'assert'], ['C07'])
 rule('complex-glue', 'eval_*', '*', ['post', 'precond', 'assert'], ['C08'])
 rule(G, '*', '*', ['overflow', 'divzero', 'shift', 'index'], ['C01'])
 rule(G, '*', '*', ['decreases'], ['C02'])
+
+
+# ---- eval_f64::ast (unit f64-ast): every node applies the named IEEE / libm primitive (f64_header.vinc) to its children's values
+F64_ARITH = ['Add', 'Subtract', 'Multiply', 'Divide', 'Modulo', 'Negative', 'Pow', 'Abs', 'Floor', 'Ceil', 'Truncate', 'Round', 'Sqrt']
+F64_FUNCS = ['Abs', 'Floor', 'Ceil', 'Round', 'Truncate', 'Sign', 'Ln', 'Lb', 'Exp', 'Exp2', 'Sqrt', 'Pow', 'Root', 'Log', 'Sin', 'Cos', 'Tan', 'Sinh', 'Cosh', 'Tanh',
+             'Asin', 'Acos', 'Atan', 'Arsinh', 'Arcosh', 'Artanh', 'Atan2', 'LambertW', 'Factorial', 'ILog']
+F64_AGG = ['Min', 'Max', 'Avg', 'Med']
+for a in F64_ARITH:
+    rule('f64-ast', 'eval', a, ['post', 'assert'], ['C05', 'C15'])
+for a in F64_FUNCS:
+    rule('f64-ast', 'eval', a, ['post', 'assert'], ['C10'])
+for a in ('Arsinh', 'Arcosh', 'Artanh', 'Pow', 'Modulo'):
+    rule('f64-ast', 'eval', a, ['post', 'assert'], ['C13'])
+for a in F64_AGG:
+    rule('f64-ast', 'eval', a, ['post', 'invariant', 'assert'] + PANIC_KINDS, ['C11'])
+rule('f64-ast', 'eval', 'Number', ['post'], ['C05', 'C14'])
+rule('f64-ast', 'eval', '*', ['post', 'assert'], ['C20'])
+rule('f64-ast', '*', '*', PANIC_KINDS, ['C01'])
+rule('f64-ast', '*', '*', ['decreases'], ['C02'])
+for a in ('Factorial', 'LambertW', 'ILog'):
+    rule('f64-ast', 'eval', a, ['invariant', 'overflow'], ['C02'])      # the iteration caps
